@@ -52,7 +52,7 @@ R.implements(f'{SR}.wait', f'{RN}.wait#yield', self_type='Obj[SerialRunner]',
                                   C("arg_filtered_context == filter_ctx(Inst_to_Task(task), self.context)",
                                     'the task is run with its own filter_context applied to the Lab context', serves=('C16',))]},
     cand_locals=('task', 'task_submission'),
-    frame=['self.task_submissions', 'self.results_map', 'Inst._results_map', 'Inst.context', '@DIRS', '@FGOOD', '@FBAD', '@RUN_CALLS', 'CurProc.name', 'Handle.pending'],
+    frame=['self.task_submissions', 'self.results_map', 'Inst._results_map', 'Inst.context', '@DIRS', '@FGOOD', '@FBAD', '@RUN_CALLS', 'CurProc.name', 'Handle.pending', '*.bufs'],
     candidates=["forall('Inst', lambda i: implies(i in __done__, i._results_map == some(self.results_map)))",
                 "INV(self)", "self.results_map == old(self.results_map)",
                 "Inst_to_Task(task) not in INFLIGHT(self)", "Inst_to_Task(task) in old(INFLIGHT(self))",
